@@ -35,13 +35,13 @@ func Transact(db *gorm.DB, fnList ...GormProcFn) (err error) {
 		return
 	}
 
+	var completed bool
 	defer func() {
-		if err == nil {
+		if err == nil && !completed {
+			// a step panicked; recover() may return nil (panic(nil)), so do not rely on its value
 			var catch = recover()
-			if catch != nil {
-				ulog.Error("db.transaction.panic.error", zap.Stack("stack"))
-				err = fmt.Errorf("db.transaction.panic:%+v", catch)
-			}
+			ulog.Error("db.transaction.panic.error", zap.Stack("stack"))
+			err = fmt.Errorf("db.transaction.panic:%+v", catch)
 		}
 
 		if err != nil {
@@ -59,6 +59,7 @@ func Transact(db *gorm.DB, fnList ...GormProcFn) (err error) {
 			return
 		}
 	}
+	completed = true
 
 	return
 }
